@@ -2,20 +2,21 @@
 (* Call-site resolution (C09; parser/alias.go alias(), checkAlias(), sortAliases()).
    An alias:  [fn, pat : << [k : "w", w : word] | [k : "p", p : parameter name] >>,
                par : parameter name -> [t : "Z" | "T" | "G" (type parameter), ref : BOOLEAN], neg : BOOLEAN]
-   A call site: << [k : "w", w] | [k : "a", id, t : "Z" | "T" | "C", form : "lit" | "neg" | "group" | "var" | "groupvar" | "elem" | "field" | "textchar"] >>
+   A call site: << [k : "w", w] | [k : "a", id, t : "Z" | "T" | "C", form : "lit" | "neg" | "group" | "var" | "groupvar" | "elem" | "field" | "textchar" | "varword" (then also w : the name)] >>
    (an argument is one item: a single token, a negated literal or a parenthesised group).
    The invoked function is the one whose pattern matches the items from the start with the greatest length among those
    whose parameter types equal the argument types; on equal length a non-generic one is preferred, then the one with more
    Referenz parameters; arguments are bound by placeholder name.  Where the rule leaves a tie, any of the tied ones.     *)
 EXTENDS Naturals, Sequences, FiniteSets
 
-ItemMatches(pi, si) == IF pi.k = "w" THEN si.k = "w" /\ si.w = pi.w ELSE si.k = "a"
+\* an argument that is a single name spelled like a word of the pattern (form "varword") is both: the word, and an argument
+ItemMatches(pi, si) == IF pi.k = "w" THEN (si.k = "w" /\ si.w = pi.w) \/ (si.k = "a" /\ "w" \in DOMAIN si /\ si.w = pi.w) ELSE si.k = "a"
 Matches(a, site) == Len(a.pat) <= Len(site) /\ \A i \in 1..Len(a.pat) : ItemMatches(a.pat[i], site[i])
 \* argument bound to parameter p
 ArgOf(a, site, p) == site[CHOOSE i \in 1..Len(a.pat) : a.pat[i].k = "p" /\ a.pat[i].p = p]
 Params(a) == {a.pat[i].p : i \in {j \in 1..Len(a.pat) : a.pat[j].k = "p"}}
 \* only an assignable can be passed by Referenz: a name, an element of a list, a field - but not a character of a Text ("textchar")
-RefOK(arg) == arg.form \in {"var", "groupvar", "elem", "field"}
+RefOK(arg) == arg.form \in {"var", "groupvar", "elem", "field", "varword"}
 Typed(a, site) ==
     /\ \A p \in Params(a) :
           LET arg == ArgOf(a, site, p)
